@@ -10,6 +10,7 @@ import Astits.Model.Demux
 import Astits.Proofs.NoPanic
 import Astits.Proofs.Termination
 import Astits.Proofs.TerminationCost
+import Astits.Proofs.ParserFuel
 namespace Astits.C03
 
 /-- the iterator never panics at a non-negative offset -/
@@ -594,5 +595,273 @@ end Termination
 #print axioms nextData_terminates_bounded
 #print axioms totalMeasure_bounds
 #print axioms permanent_fault_repeats
+
+/-! ## Fuel of the PARSER loops is always sufficient (Astits/Proofs/ParserFuel*)
+
+Every Go loop `for i.Offset() < end { … }` of the parsers (`loopUntil` for the PAT / PMT / SDT / EIT / NIT loops,
+`parsePSISections`, `parseDescriptorsLoop`, the eight loops inside descriptor bodies, `psiCompleteLoop`) is a
+fuel-recursive function in the model whose `0` branch (`P.fail`, resp. `pure false`) is an outcome the Go code does
+not have.  The theorems below close that gap, for EVERY input (malformed input included) and EVERY iterator state:
+
+* `ParserFuel.XRes` adds a fourth outcome `exhausted`; `ParserFuel.iterX` is the fuel-recursive loop that returns
+  it in its `0` branch (and nowhere else); the `…X` functions are the model's parsers with every loop replaced by
+  `iterX` (all other text unchanged, loop-free model parsers are used as they are).  `erase_…X` theorems: forgetting
+  the fourth outcome (`exhausted ↦ P.fail`) gives back the model's parser, for every fuel.
+* `parser_loops_never_exhausted`: with the caller's fuel `len + 1` (or any larger fuel) no loop is exhausted.
+* `parser_loops_fuel_irrelevant`: above `rem i + 1` (remaining bytes + 1) the fuel does not change the result.
+* `parser_fuel_is_sufficient`: the entry points `parseDescriptors`, `parsePSIData`, `parseData`, `isPSIComplete`
+  never have the fuel-exhausted outcome, nested loops included; their exhaustion-reporting variants ARE the
+  model's functions.
+* the engine is one progress lemma per loop (`ParserFuel.Rd body 1` / `ParserFuel.ProgStep step`): an iteration
+  after which the loop goes on started inside the slice (`0 ≤ off < len`), left the slice unchanged and the
+  offset strictly larger — for `parseDescriptor` because of the final `Seek(off + 2 + length)` (wherever the body
+  parser stopped), for `parsePSISection` because of the final `Seek(start + 3 + section_length)`.
+No counterexample exists: no hypothesis on the input was needed anywhere. -/
+
+section ParserFuel
+open ParserFuel
+
+/-- the progress lemmas (one per loop): a successful iteration that continues the loop began inside the slice and
+moved the offset strictly forward, leaving the slice unchanged -/
+theorem parser_loop_progress :
+    (Rd patBody 1 ∧ Rd pmtBody 1 ∧ Rd sdtBody 1 ∧ Rd nitBody 1 ∧ Rd eitBody 1) ∧
+    ProgStep sectionsStep ∧ Rd parseDescriptor 1 ∧
+    (Rd contentBody 1 ∧ Rd newDescriptorExtendedEventItem 1 ∧ Rd localTimeOffsetBody 1 ∧ Rd parentalRatingBody 1 ∧
+      Rd subtitlingBody 1 ∧ Rd teletextBody 1 ∧ Rd It.nextByte 1 ∧ Rd vbiDataBody 1) ∧
+    ProgStep psiCompleteStep :=
+  ⟨table_loop_bodies_progress, ProgStep_sectionsStep, Rd_parseDescriptor,
+    ⟨Rd_contentBody, Rd_extendedEventItem, Rd_localTimeOffsetBody, Rd_parentalRatingBody, Rd_subtitlingBody,
+      Rd_teletextBody, Rd.nextByte, Rd_vbiDataBody⟩, ProgStep_psiCompleteStep⟩
+
+/-- what the progress lemma of the descriptor loop says in plain terms: a returned descriptor started at an offset
+with two bytes left and the iterator stands at least two bytes further (after the `Seek`), possibly beyond the end -/
+theorem parseDescriptor_progress (i i' : It) (d : Descriptor) (h : parseDescriptor i = .ok (d, i')) :
+    i'.bs = i.bs ∧ i.off + 2 ≤ i'.off ∧ 0 ≤ i.off ∧ i.off + 2 ≤ i.bs.length :=
+  parseDescriptor_ok h
+
+/-- a returned section started inside the slice and the iterator stands strictly further -/
+theorem parsePSISection_progress (i i' : It) (s : PSISection) (stop : Bool)
+    (h : parsePSISection i = .ok ((s, stop), i')) :
+    i'.bs = i.bs ∧ i.off < i'.off ∧ 0 ≤ i.off ∧ i.off < i.bs.length :=
+  parsePSISection_ok h
+
+/-- every loop of the model is the generic fuel-recursive loop, for EVERY fuel (also `0`) -/
+theorem parser_loops_are_iter :
+    (∀ α (n : Nat) (e : Int) (body : P α), loopUntil n e body = iter P.fail (forStep e body []) List.cons n) ∧
+    (∀ n, parsePSISections n = iter P.fail sectionsStep List.cons n) ∧
+    (∀ e n, parseDescriptorsLoop e n = iter P.fail (forStep e parseDescriptor []) List.cons n) ∧
+    (∀ e n, newDescriptorContentLoop e n = iter P.fail (forStep e contentBody []) List.cons n) ∧
+    (∀ e n, newDescriptorExtendedEventLoop e n = iter P.fail (forStep e newDescriptorExtendedEventItem []) List.cons n) ∧
+    (∀ e n, newDescriptorLocalTimeOffsetLoop e n = iter P.fail (forStep e localTimeOffsetBody []) List.cons n) ∧
+    (∀ e n, newDescriptorParentalRatingLoop e n = iter P.fail (forStep e parentalRatingBody []) List.cons n) ∧
+    (∀ e n, newDescriptorSubtitlingLoop e n = iter P.fail (forStep e subtitlingBody []) List.cons n) ∧
+    (∀ e n, newDescriptorTeletextLoop e n = iter P.fail (forStep e teletextBody []) List.cons n) ∧
+    (∀ id e n, newDescriptorVBIDataDescLoop id e n = iter P.fail (forStep e It.nextByte []) (vbiDescFin id) n) ∧
+    (∀ e n, newDescriptorVBIDataLoop e n = iter P.fail (forStep e vbiDataBody []) List.cons n) ∧
+    (∀ n, psiCompleteLoop n = iter (pure false) psiCompleteStep (fun _ r => r) n) :=
+  ⟨fun _ n e body => loopUntil_eq n e body, parsePSISections_eq, descriptorsLoop_eq, contentLoop_eq,
+    extendedEventLoop_eq, localTimeOffsetLoop_eq, parentalRatingLoop_eq, subtitlingLoop_eq, teletextLoop_eq,
+    vbiDataDescLoop_eq, vbiDataLoop_eq, psiCompleteLoop_eq⟩
+
+/-- NEVER EXHAUSTED.  From any iterator state `i`, with the fuel the callers pass (`len + 1`) or more, none of the
+twelve loops reaches its `0` branch: the exhaustion-reporting loop is not exhausted and is the model's loop.
+(`loopUntil`: for every body that never reports exhaustion itself and has the progress property — the five bodies
+of the table parsers do, see `parser_loop_progress` and `parser_fuel_is_sufficient`.) -/
+theorem parser_loops_never_exhausted (i : It) (n : Nat) (hn : i.bs.length + 1 ≤ n) :
+    (∀ α (e : Int) (body : PX α), NX body → Rd (erase body) 1 →
+        loopUntilX n e body i = .ofRes (loopUntil n e (erase body) i)) ∧
+    parsePSISectionsX n i = .ofRes (parsePSISections n i) ∧
+    (∀ e, parseDescriptorsLoopX e n i = .ofRes (parseDescriptorsLoop e n i)) ∧
+    (∀ e, newDescriptorContentLoopX e n i = .ofRes (newDescriptorContentLoop e n i)) ∧
+    (∀ e, newDescriptorExtendedEventLoopX e n i = .ofRes (newDescriptorExtendedEventLoop e n i)) ∧
+    (∀ e, newDescriptorLocalTimeOffsetLoopX e n i = .ofRes (newDescriptorLocalTimeOffsetLoop e n i)) ∧
+    (∀ e, newDescriptorParentalRatingLoopX e n i = .ofRes (newDescriptorParentalRatingLoop e n i)) ∧
+    (∀ e, newDescriptorSubtitlingLoopX e n i = .ofRes (newDescriptorSubtitlingLoop e n i)) ∧
+    (∀ e, newDescriptorTeletextLoopX e n i = .ofRes (newDescriptorTeletextLoop e n i)) ∧
+    (∀ id e, newDescriptorVBIDataDescLoopX id e n i = .ofRes (newDescriptorVBIDataDescLoop id e n i)) ∧
+    (∀ e, newDescriptorVBIDataLoopX e n i = .ofRes (newDescriptorVBIDataLoop e n i)) ∧
+    psiCompleteLoopX n i = .ofRes (psiCompleteLoop n i) := by
+  have h : rem i < n := by have := rem_le i; omega
+  exact ⟨fun _ e body hb hp => loopUntilX_eq e hb hp n i h, parsePSISectionsX_eq n i h,
+    fun e => parseDescriptorsLoopX_eq e n i h, fun e => contentLoopX_eq e n i h,
+    fun e => extendedEventLoopX_eq e n i h, fun e => localTimeOffsetLoopX_eq e n i h,
+    fun e => parentalRatingLoopX_eq e n i h, fun e => subtitlingLoopX_eq e n i h, fun e => teletextLoopX_eq e n i h,
+    fun id e => vbiDataDescLoopX_eq id e n i h, fun e => vbiDataLoopX_eq e n i h, psiCompleteLoopX_eq n i h⟩
+
+/-- `.ofRes r` is never the fuel-exhausted outcome -/
+theorem ofRes_not_exhausted {α} (r : Res α) : (XRes.ofRes r).isExhausted = false := by cases r <;> rfl
+
+/-- FUEL IRRELEVANCE.  From any iterator state, every fuel above the remaining bytes (`rem i`: `len - off`, `0` for
+a negative offset) gives the result of fuel `rem i + 1`; in particular the callers' `len + 1` does. -/
+theorem parser_loops_fuel_irrelevant (i : It) (n : Nat) (hn : rem i + 1 ≤ n) :
+    (∀ α (e : Int) (body : P α), Rd body 1 → loopUntil n e body i = loopUntil (rem i + 1) e body i) ∧
+    parsePSISections n i = parsePSISections (rem i + 1) i ∧
+    (∀ e, parseDescriptorsLoop e n i = parseDescriptorsLoop e (rem i + 1) i) ∧
+    (∀ e, newDescriptorContentLoop e n i = newDescriptorContentLoop e (rem i + 1) i) ∧
+    (∀ e, newDescriptorExtendedEventLoop e n i = newDescriptorExtendedEventLoop e (rem i + 1) i) ∧
+    (∀ e, newDescriptorLocalTimeOffsetLoop e n i = newDescriptorLocalTimeOffsetLoop e (rem i + 1) i) ∧
+    (∀ e, newDescriptorParentalRatingLoop e n i = newDescriptorParentalRatingLoop e (rem i + 1) i) ∧
+    (∀ e, newDescriptorSubtitlingLoop e n i = newDescriptorSubtitlingLoop e (rem i + 1) i) ∧
+    (∀ e, newDescriptorTeletextLoop e n i = newDescriptorTeletextLoop e (rem i + 1) i) ∧
+    (∀ id e, newDescriptorVBIDataDescLoop id e n i = newDescriptorVBIDataDescLoop id e (rem i + 1) i) ∧
+    (∀ e, newDescriptorVBIDataLoop e n i = newDescriptorVBIDataLoop e (rem i + 1) i) ∧
+    psiCompleteLoop n i = psiCompleteLoop (rem i + 1) i := by
+  have h : rem i < n := by omega
+  exact ⟨fun _ e body hp => loopUntil_fuel_irrelevant e hp n i h, parsePSISections_fuel_irrelevant n i h,
+    fun e => parseDescriptorsLoop_fuel_irrelevant e n i h, fun e => contentLoop_fuel_irrelevant e n i h,
+    fun e => extendedEventLoop_fuel_irrelevant e n i h, fun e => localTimeOffsetLoop_fuel_irrelevant e n i h,
+    fun e => parentalRatingLoop_fuel_irrelevant e n i h, fun e => subtitlingLoop_fuel_irrelevant e n i h,
+    fun e => teletextLoop_fuel_irrelevant e n i h, fun id e => vbiDataDescLoop_fuel_irrelevant id e n i h,
+    fun e => vbiDataLoop_fuel_irrelevant e n i h, psiCompleteLoop_fuel_irrelevant n i h⟩
+
+/-- the remaining bytes never exceed the slice: the callers' fuel `len + 1` is above the bound -/
+theorem rem_lt_caller_fuel (i : It) : rem i + 1 ≤ i.bs.length + 1 := by have := rem_le i; omega
+
+/-- FUEL-FREE SEMANTICS.  With the callers' fuel (or more) each loop returns the result of the fuel-free big-step
+relation `IterRuns` (which has no out-of-fuel rule and is deterministic, `IterRuns.det`) -/
+theorem parser_loops_big_step (i : It) (n : Nat) (hn : i.bs.length + 1 ≤ n) :
+    (∀ α (e : Int) (body : P α), Rd body 1 → IterRuns (forStep e body []) List.cons i (loopUntil n e body i)) ∧
+    IterRuns sectionsStep List.cons i (parsePSISections n i) ∧
+    (∀ e, IterRuns (forStep e parseDescriptor []) List.cons i (parseDescriptorsLoop e n i)) ∧
+    (∀ e, IterRuns (forStep e vbiDataBody []) List.cons i (newDescriptorVBIDataLoop e n i)) ∧
+    (∀ id e, IterRuns (forStep e It.nextByte []) (vbiDescFin id) i (newDescriptorVBIDataDescLoop id e n i)) ∧
+    IterRuns psiCompleteStep (fun _ r => r) i (psiCompleteLoop n i) := by
+  have h : rem i < n := by have := rem_le i; omega
+  exact ⟨fun _ e body hp => loopUntil_runs e hp n i h, parsePSISections_runs n i h,
+    fun e => parseDescriptorsLoop_runs e n i h, fun e => vbiDataLoop_runs e n i h,
+    fun id e => vbiDataDescLoop_runs id e n i h, psiCompleteLoop_runs n i h⟩
+
+/-- ENTRY POINTS.  `parseDescriptors`, `parsePSIData` (from any iterator state), `parseData` and `isPSIComplete`
+(for every packet group) never have the fuel-exhausted outcome: their exhaustion-reporting variants — the model's
+text with every loop, nested ones included, replaced by the loop that reports exhaustion — are the model's
+functions -/
+theorem parser_fuel_is_sufficient :
+    (∀ i : It, parseDescriptorsX i = .ofRes (parseDescriptors i)) ∧
+    (∀ i : It, parsePSIDataX i = .ofRes (parsePSIData i)) ∧
+    (∀ (ps : List Packet) (prs : ParserKind) (pm : ProgramMap), parseDataX ps prs pm = .ofRes (parseData ps prs pm)) ∧
+    (∀ ps : List Packet, isPSICompleteX ps = some (isPSIComplete ps)) :=
+  ⟨parseDescriptorsX_eq, parsePSIDataX_eq, parseDataX_eq, isPSICompleteX_eq⟩
+
+/-- the six table parsers (callers of `loopUntil`) and the section parser, from any iterator state -/
+theorem table_parsers_fuel_is_sufficient (i : It) (e : Int) (x : Nat) :
+    parsePATSectionX e x i = .ofRes (parsePATSection e x i) ∧
+    parsePMTSectionX e x i = .ofRes (parsePMTSection e x i) ∧
+    parseSDTSectionX e x i = .ofRes (parseSDTSection e x i) ∧
+    parseNITSectionX x i = .ofRes (parseNITSection x i) ∧
+    parseEITSectionX e x i = .ofRes (parseEITSection e x i) ∧
+    parseTOTSectionX i = .ofRes (parseTOTSection i) ∧
+    parsePSISectionX i = .ofRes (parsePSISection i) :=
+  ⟨eq_ofRes_of_NX (NX_parsePATSectionX e x) (erase_parsePATSectionX e x) i,
+   eq_ofRes_of_NX (NX_parsePMTSectionX e x) (erase_parsePMTSectionX e x) i,
+   eq_ofRes_of_NX (NX_parseSDTSectionX e x) (erase_parseSDTSectionX e x) i,
+   eq_ofRes_of_NX (NX_parseNITSectionX x) (erase_parseNITSectionX x) i,
+   eq_ofRes_of_NX (NX_parseEITSectionX e x) (erase_parseEITSectionX e x) i,
+   eq_ofRes_of_NX NX_parseTOTSectionX erase_parseTOTSectionX i,
+   eq_ofRes_of_NX NX_parsePSISectionX erase_parsePSISectionX i⟩
+
+/-- the same, as "the fourth outcome does not occur" -/
+theorem parser_entry_points_never_exhausted :
+    (∀ i : It, (parseDescriptorsX i).isExhausted = false) ∧
+    (∀ i : It, (parsePSIDataX i).isExhausted = false) ∧
+    (∀ (ps : List Packet) (prs : ParserKind) (pm : ProgramMap), (parseDataX ps prs pm).isExhausted = false) ∧
+    (∀ ps : List Packet, isPSICompleteX ps ≠ none) := by
+  refine ⟨fun i => ?_, fun i => ?_, fun ps prs pm => ?_, fun ps => ?_⟩
+  · rw [parseDescriptorsX_eq]; exact ofRes_not_exhausted _
+  · rw [parsePSIDataX_eq]; exact ofRes_not_exhausted _
+  · rw [parseDataX_eq]; exact ofRes_not_exhausted _
+  · rw [isPSICompleteX_eq]; exact fun h => by cases h
+
+/-- the exhaustion-reporting variants are faithful: forgetting the fourth outcome the way the model does
+(`exhausted ↦ P.fail`) gives the model's parser, for every fuel of the loops (also insufficient ones) -/
+theorem exhaustion_variants_are_the_model :
+    erase parseDescriptorsX = parseDescriptors ∧ erase parsePSIDataX = parsePSIData ∧
+    (∀ n, erase (parsePSISectionsX n) = parsePSISections n) ∧
+    (∀ e n, erase (parseDescriptorsLoopX e n) = parseDescriptorsLoop e n) ∧
+    (∀ α n e (body : PX α), erase (loopUntilX n e body) = loopUntil n e (erase body)) :=
+  ⟨erase_parseDescriptorsX, erase_parsePSIDataX, erase_parsePSISectionsX, erase_parseDescriptorsLoopX,
+    fun _ n e body => erase_loopUntilX n e body⟩
+
+/-! ### non-vacuity: inputs that make the loops run several iterations, evaluated -/
+
+/-- pointer field 0; a PAT with three programmes; a PMT with a programme-level VBI data descriptor (two services of
+two lines each) and two elementary streams carrying a teletext descriptor (two items) and a VBI data descriptor;
+both CRCs correct; two stuffing bytes -/
+def fuelDemoUnit : Bytes :=
+  [0, 0, 176, 21, 0, 7, 199, 0, 0, 0, 1, 240, 0, 0, 2, 240, 1, 0, 3, 240, 2, 137, 150, 253, 157, 2, 176, 67, 0, 1, 199,
+   0, 0, 225, 0, 240, 10, 69, 8, 1, 2, 231, 201, 4, 2, 225, 194, 6, 225, 0, 240, 22, 86, 10, 1, 2, 3, 17, 18, 4, 5, 6,
+   10, 52, 69, 8, 1, 2, 231, 201, 4, 2, 225, 194, 6, 225, 1, 240, 12, 86, 10, 1, 2, 3, 17, 18, 4, 5, 6, 10, 52, 71, 117,
+   165, 145, 0xff, 0xff]
+
+/-- the loop counts of the unit: sections, PAT programmes, PMT streams, descriptors of the first stream, teletext
+items, VBI services, lines of the first VBI service -/
+def demoShape (d : PSIData) : List Nat :=
+  let pat := d.sections.filterMap fun s => s.syn.bind (·.data) |>.bind (·.pat)
+  let pmt := d.sections.filterMap fun s => s.syn.bind (·.data) |>.bind (·.pmt)
+  let es := (pmt.map (·.elementaryStreams)).flatten
+  let ds := ((es.take 1).map (·.elementaryStreamDescriptors)).flatten
+  let tt := (ds.filterMap (·.teletext)).map (·.items.length)
+  let vb := ds.filterMap (·.vbiData)
+  [d.sections.length, (pat.map (·.programs.length)).sum, es.length, ds.length, tt.sum,
+   (vb.map (·.services.length)).sum, ((vb.map (·.services)).flatten.take 1 |>.map (·.descriptors.length)).sum]
+
+/-- section loop 3 iterations (PAT, PMT, stop), programme loop 3, stream loop 2, descriptor loop 2, teletext loop 2,
+VBI service loop 2, VBI line loop 2 — and no exhaustion -/
+example : (match parsePSIDataX ⟨fuelDemoUnit, 0⟩ with
+    | .ok (d, _) => decide (demoShape d = [3, 3, 2, 2, 2, 2, 2])
+    | _ => false) = true := by decide +kernel
+example : (match parsePSIData.val fuelDemoUnit with
+    | .ok d => decide (demoShape d = [3, 3, 2, 2, 2, 2, 2])
+    | _ => false) = true := by decide +kernel
+
+def fuelDemoPacket : Packet :=
+  { header := ⟨0, false, true, true, 0, false, false, 0⟩, payload := fuelDemoUnit }
+
+example : (parseDataX [fuelDemoPacket] .none []).isOk = true ∧ (parseData [fuelDemoPacket] .none []).isOk = true := by
+  decide +kernel
+example : isPSICompleteX [fuelDemoPacket] = some true ∧ isPSIComplete [fuelDemoPacket] = true := by decide +kernel
+
+/-- with less fuel than iterations the variant DOES report exhaustion (three sections need three units; the model
+then returns its `0` branch, an error) — the fourth outcome is not vacuous -/
+example : (parsePSISectionsX 2 ⟨fuelDemoUnit, 1⟩).isExhausted = true ∧ (parsePSISections 2 ⟨fuelDemoUnit, 1⟩).isOk = false ∧
+    (parsePSISectionsX 3 ⟨fuelDemoUnit, 1⟩).isOk = true ∧ (parsePSISections 3 ⟨fuelDemoUnit, 1⟩).isOk = true := by
+  decide +kernel
+
+/-- the bound `rem i + 1` is tight: the inner VBI loop consumes one byte per iteration, so three remaining bytes
+need three iterations and the final test -/
+example : rem ⟨[1, 2, 3], 0⟩ = 3 ∧ (newDescriptorVBIDataDescLoopX 1 3 3 ⟨[1, 2, 3], 0⟩).isExhausted = true ∧
+    (newDescriptorVBIDataDescLoopX 1 3 4 ⟨[1, 2, 3], 0⟩).isOk = true := by decide +kernel
+
+/-- MALFORMED input 1: a body parser that reads beyond the declared end of its descriptor.  Two extended-event
+descriptors (tag 0x4e) declare one byte but their parser reads eight; `Seek` moves the iterator BACK to the declared
+end each time, still two bytes beyond the start of the iteration: five iterations, result ok. -/
+def overreadDescriptors : Bytes := [0xf0, 0x0c, 0x4e, 0x01, 0x00, 0x4e, 0x01, 0x00, 0x00, 0x00, 0x00, 0x00, 0x00, 0x00]
+
+example : (match newDescriptorExtendedEvent ⟨overreadDescriptors, 4⟩ with | .ok (_, i) => decide (i.off = 10) | _ => false) = true ∧
+    (match parseDescriptor ⟨overreadDescriptors, 2⟩ with | .ok (_, i) => decide (i.off = 5) | _ => false) = true ∧
+    (match parseDescriptorsX ⟨overreadDescriptors, 0⟩ with
+      | .ok (ds, i) => decide (ds.map (·.tag) = [0x4e, 0x4e, 0, 0, 0] ∧ i.off = 14) | _ => false) = true := by
+  decide +kernel
+
+/-- MALFORMED input 2: a descriptor that declares 200 bytes in a 5-byte slice and whose parser (stream identifier)
+reads one byte: `Seek` puts the offset at 204, beyond the end; the next iteration fails on its first read — an
+error, not exhaustion, and not an endless loop -/
+example : (match parseDescriptor ⟨[0xf0, 0xff, 0x52, 200, 7], 2⟩ with | .ok (_, i) => decide (i.off = 204) | _ => false) = true ∧
+    (match parseDescriptorsX ⟨[0xf0, 0xff, 0x52, 200, 7], 0⟩ with | .err _ => true | _ => false) = true := by
+  decide +kernel
+
+/-- MALFORMED input 3: a negative offset: the first read panics (Go: index out of range), no loop iteration -/
+example : (match parsePSISectionsX 1 ⟨[1, 2, 3], -2⟩ with | .panic => true | _ => false) = true := by decide +kernel
+
+end ParserFuel
+
+#print axioms parser_loop_progress
+#print axioms parser_loops_are_iter
+#print axioms parser_loops_never_exhausted
+#print axioms parser_loops_fuel_irrelevant
+#print axioms parser_loops_big_step
+#print axioms parser_fuel_is_sufficient
+#print axioms table_parsers_fuel_is_sufficient
+#print axioms parser_entry_points_never_exhausted
+#print axioms exhaustion_variants_are_the_model
 
 end Astits.C03
